@@ -1,6 +1,13 @@
 """Property -> rules table (DESIGN.md section 4).  Each entry names the clauses decided and declined."""
+import re
 from .core import Result
 from . import rules_struct as S
+from . import rules_zero as Z
+from . import rules_shape as SH
+from . import rules_units as U
+from . import rules_guard as GU
+from . import rules_serde as SE
+from . import rules_encaps as EN
 
 TRUSTED_BASE = [
     "rustc nightly (type checker, MIR construction at mir-opt-level=0, compile_fail diagnostics)",
@@ -15,23 +22,74 @@ ASSUMPTIONS = [
     "the clauses decided are necessary conditions of the property; the declined clauses (coverage.declined) are not decided",
 ]
 
+_cache = {}
 
-def _wrap(fn):
+
+def _run(name, f):
+    key = (name, f.path)
+    if key in _cache:
+        return _cache[key]
+    if name == "deleg":
+        r = [S.r_deleg(f)]
+    elif name == "take":
+        r = [S.r_take(f)[0]]
+    elif name == "ovf":
+        r = [S.r_ovf(f)[0]]
+    elif name == "sortshape":
+        r = [S.r_sortshape(f)[0]]
+    elif name == "dup":
+        r = [S.r_dup(f)[0]]
+    elif name == "zstptr":
+        r = [S.r_zstptr(f)[0]]
+    elif name == "flat_struct":
+        r = [S.r_flat_struct(f)[0]]
+    elif name == "zero":
+        r = [Z.r_zero(f, serde_sinks=True)[0]]
+    elif name == "shape":
+        r = SH.r_shape(f)[0]
+    elif name == "units":
+        r = [U.r_units(f)[0]]
+    elif name == "guard":
+        r = GU.r_guard(f)[0]
+    elif name == "serde":
+        r = [SE.r_serde(f)[0]]
+    elif name == "encaps":
+        r = [EN.r_encaps(f)[0]]
+    else:
+        mod = EXTRA.get(name)
+        if mod is None:
+            raise KeyError(name)
+        r = mod(f)
+    _cache[key] = r
+    return r
+
+
+EXTRA = {}      # later engines register here: name -> callable(f) -> [Result]
+
+
+def sel(name, fn=None, rules=None, desc=None, keep_rule_floor=True):
+    """run engine `name`, keep the instances / findings whose function ident matches regex `fn`, whose rule is in
+    `rules`, and whose descriptor matches regex `desc`"""
+    fre = re.compile(fn) if fn else None
+    dre = re.compile(desc) if desc else None
+
     def g(f, cfg, tier):
-        r = fn(f)
-        return r[0] if isinstance(r, tuple) else r
+        out = []
+        for x in _run(name, f):
+            if rules is not None and x.rule not in rules:
+                continue
+            y = Result(x.rule)
+
+            def okfn(s):
+                return fre is None or fre.search(s) is not None
+            y.instances = [i for i in x.instances if okfn(i["fn"]) and (dre is None or dre.search(i["what"]))]
+            y.findings = [fd for fd in x.findings if (okfn(fd.fn) and (dre is None or dre.search(fd.desc))) or (fd.fn == "<rule>" and keep_rule_floor)]
+            y.notes = list(x.notes) if fre is None else []
+            y.inconclusive = [i for i in x.inconclusive if okfn(i["fn"])]
+            out.append(y)
+        return out
     return g
 
-
-R = {
-    "deleg": _wrap(S.r_deleg),
-    "take": _wrap(S.r_take),
-    "ovf": _wrap(S.r_ovf),
-    "sortshape": _wrap(S.r_sortshape),
-    "dup": _wrap(S.r_dup),
-    "zstptr": _wrap(S.r_zstptr),
-    "flat_struct": _wrap(S.r_flat_struct),
-}
 
 PROPS = {}
 
@@ -42,29 +100,87 @@ def prop(pid, rules, explanation, declined=(), assumptions=()):
 
 def run(pid, f, cfg, tier):
     out = []
-    for name in PROPS[pid]["rules"]:
-        r = R[name](f, cfg, tier)
-        if isinstance(r, (list, tuple)):
-            out.extend(r)
+    for g in PROPS[pid]["rules"]:
+        out.extend(g(f, cfg, tier))
+    # merge results of the same rule
+    merged = {}
+    for r in out:
+        m = merged.get(r.rule)
+        if m is None:
+            merged[r.rule] = r
         else:
-            out.append(r)
-    return out
+            keys = {(i["fn"], i["what"]) for i in m.instances}
+            m.instances += [i for i in r.instances if (i["fn"], i["what"]) not in keys]
+            have = {x.key for x in m.findings}
+            m.findings += [x for x in r.findings if x.key not in have]
+            m.notes += [x for x in r.notes if x not in m.notes]
+            m.inconclusive += [x for x in r.inconclusive if x not in m.inconclusive]
+    return list(merged.values())
 
 
-def filt(rule_name, pred):
-    """restrict a rule's instances / findings to the functions relevant for one property"""
-    base = R[rule_name]
+CTORS = r"^(TooDee::(new|init|from_vec|from_box|with_capacity)|TooDee as (Default|Clone|From<.*>)::|TooDeeView(Mut)?::(new|from_toodee)|TooDeeView as From)"
+VIEWS = r"(TooDeeView|TooDeeViewMut|calculate_view_dimensions|get_col_params|TooDee as TooDeeOps(Mut)?::view)"
+INSERT = r"TooDee::(insert_row|insert_col|push_row|push_col)"
+REMOVE = r"(TooDee::(remove_row|remove_col|pop_row|pop_col)|DrainCol|DropGuard)"
+ROWCUR = r"^(Rows|RowsMut) as "
+COLCUR = r"^(Col|ColMut) as "
+SWAPS = r"(swap|row_pair_mut|fill)"
 
-    def g(f, cfg, tier):
-        r = base(f, cfg, tier)
-        rs = r if isinstance(r, (list, tuple)) else [r]
-        out = []
-        for x in rs:
-            y = Result(x.rule)
-            y.instances = [i for i in x.instances if pred(i["fn"])]
-            y.findings = [fd for fd in x.findings if pred(fd.fn) or fd.fn == "<rule>"]
-            y.notes = x.notes
-            y.inconclusive = [i for i in x.inconclusive if pred(i["fn"])]
-            out.append(y)
-        return out
-    return g
+prop("C01", [sel("encaps"), sel("zero", fn=r"^(TooDee|DrainCol|DropGuard| as Drop)"), sel("zero", fn=r"^TooDee"), sel("shape"), sel("deleg", fn=r"TooDee::(push|pop)")],
+     "Shape invariant of the owned array, structural clauses: (R-ENCAPS) the three fields are private to module toodee, no exported signature / impl hands out `&mut Vec`, so only the enumerated shape writers can change (len, num_rows, num_cols); (R-ZERO) num_rows==0 <=> num_cols==0 in every abstract state at every TooDee construction site and at every return of a dimension writer; (R-UNWIND/R-LEAK/R-LEAK-DRAIN/R-HIDE) at every point where control can leave a writer (panic in caller code or a rejected call, leak of the returned drain, return) the triple is untouched, all-zero or in product form; (R-DELEG) push/pop delegate to insert/remove with the dimension as index.",
+     declined=["that the length written by insert_row/insert_col/remove_row on the success path equals the new product (loop/pointer arithmetic, DESIGN 2.4)", "cells equal those of a rows-of-cells model (runtime values)"])
+prop("C02", [sel("guard", fn=r"(Index|IndexMut|::col$|::col_mut$| as TooDeeOps(Mut)?::col|get_col_params)"), sel("guard", rules=["R-ARITH"], fn=COLCUR), sel("units", fn=r"(Index|::col|get_unchecked|get_col_params|Col as|ColMut as)")],
+     "Checked access, structural clauses: (R-GUARD) every caller index of Index/IndexMut (row and coordinate forms) and col()/col_mut() on the three receivers is compared strictly with the dimension of its own unit by a guard whose failing edge panics and whose surviving edge dominates every arithmetic use and unchecked access; (R-ARITH) Col/ColMut indexing forms idx*(1+skip) only with checked arithmetic and reaches the cell through a checked slice index (no wrap for huge indices with overflow checks off); (R-UNITS) rows are never compared/multiplied as columns. R-LAYOUT (address shape row*S+col with the object's own stride) is decided by the layout engine when present.",
+     declined=["the pen-and-paper lemmas L-POS/L-ROW/L-COL* themselves (trusted base)"])
+prop("C03", [sel("zero", fn=VIEWS), sel("units", fn=VIEWS), sel("encaps", fn=r"^TooDeeView")],
+     "Views, structural clauses: (R-ZERO) every TooDeeView/TooDeeViewMut construction site receives dimensions that are both zero or both non-zero - through the computed (not assumed) summary of the shared window validator, or through the zero-rule guard of the slice constructors; (R-UNITS) start/end/stride are used with the right axis; fields of the view types are module-private. R-LAYOUT (L-WINDOW / L-EMPTY / L-PREFIX on the slice range handed to get_unchecked) is decided by the layout engine when present.",
+     declined=["cell-by-cell equality of view and parent (runtime values)"])
+prop("C04", [sel("encaps", fn=r"^(TooDeeViewMut|RowsMut|ColMut|<impls>)"), sel("units", fn=r"TooDeeViewMut"), sel("dup"), sel("take", fn=r"^(RowsMut|ColMut)")],
+     "Confinement to a mutable view, structural clauses: the view's fields are module-private and RowsMut/ColMut fields crate-private, TooDeeViewMut/RowsMut/ColMut are not Clone (no second writer), the generic algorithm layers (ops/sort/translate/copy) are written against the trait only and use only permutation primitives (R-DUP); the mutable cursors never read a taken slice (R-TAKE). The stride-aware address forms of the view's own writers are decided by R-LAYOUT / R-CURSOR when present.",
+     declined=["effect inside the rectangle equals the effect on an owned copy (runtime values)"])
+prop("C05", [sel("shape", rules=["R-HIDE", "R-LEAK", "R-LEAK-DRAIN"]), sel("dup"), sel("zstptr")],
+     "clauses only: ownership discipline of C05 - (R-HIDE) every bitwise move of elements (ptr::copy/read/write) happens while the Vec length is lowered and every normal path restores it, no restore on an unwind path; (R-DUP) the generic layers only permute; (R-ZSTPTR) progress is never decided by comparing element pointers (zero-sized T); (R-LEAK / R-LEAK-DRAIN) a leaked drain leaves a buffer whose visible part contains no moved-out element.",
+     declined=["the count: that raw moves copy each element to exactly one live slot (loop invariant over pointer offsets, DESIGN 2.1)"])
+prop("C06", [sel("guard", fn=INSERT), sel("zero", fn=INSERT), sel("shape", fn=INSERT), sel("deleg", fn=r"TooDee::push"), sel("zstptr", fn=INSERT), sel("units", fn=INSERT)],
+     "clauses only: insert_row/insert_col/push_* - (R-GUARD) index <= the dimension of its own unit before anything else; (R-ZERO) the dimension grows only when data was inserted, an empty line into an empty array stays (0,0); (R-UNWIND) any rejected call or panicking iterator leaves a valid (possibly emptied) array; (R-HIDE) raw moves only in the hidden window; (R-DELEG) push_* pass the dimension as index; (R-ZSTPTR) the fill loop counts elements.",
+     declined=["placement of the new line and preservation of the other cells (pointer arithmetic of the shift loops, DESIGN 2.1)"])
+prop("C07", [sel("guard", fn=REMOVE), sel("deleg", fn=r"TooDee::pop"), sel("zero", fn=REMOVE), sel("shape", fn=REMOVE), sel("encaps", fn=r"^DrainCol")],
+     "clauses only: remove_row/remove_col/pop_* - (R-GUARD) index < dimension of its unit; (R-DELEG) pop_* are guarded on non-emptiness and pass dim-1; (R-ZERO) removing the last line zeroes both dimensions; (R-LEAK, R-LEAK-DRAIN) the returned drain may be leaked at any stage; (R-UNWIND) the drain's destructor restores a product-form array even when an element's Drop panics; DrainCol implements Iterator + DoubleEndedIterator + ExactSizeIterator.",
+     declined=["the compaction arithmetic of DrainCol's destructor and the order of yielded elements (DESIGN 2.1; the latter follows from C09 for the embedded Col cursor)"])
+prop("C08", [sel("take", fn=ROWCUR), sel("ovf", fn=ROWCUR)],
+     "Row cursors, structural clauses: (R-TAKE) no read of the cursor slice after mem::take; (R-OVF) nth/nth_back form n*(cols+skip_cols) with overflow detection that reaches the emptying branch. R-CURSOR (each update function equals the ideal strided-cursor update as a normalised value graph) is decided by the cursor engine when present.",
+     declined=["fold/rfold are std's provided methods over next/next_back"])
+prop("C09", [sel("take", fn=COLCUR), sel("ovf", fn=COLCUR), sel("guard", rules=["R-ARITH"], fn=COLCUR), sel("guard", fn=r"(::col$|::col_mut$| as TooDeeOps(Mut)?::col|get_col_params)")],
+     "Column cursors, structural clauses: R-TAKE, R-OVF as for rows; (R-ARITH) indexing multiplies with overflow detection and uses a checked slice index; (R-GUARD) col(c)/col_mut(c) panic for c >= num_cols on the three receivers.  R-CURSOR when present.")
+prop("C10", [sel("flat_struct"), sel("take", fn=r"^RowsMut")],
+     "Cell iterators, structural clauses: (R-FLAT f2) front-direction methods of FlattenExact only advance inner iterators from the front, back-direction methods only from the back, fold/rfold chain front row, remaining rows, back row and fold in the matching direction; unsafe code is forbidden in the adaptor.  R-FLATSEQ (denotational conformance of next/next_back/nth/nth_back) is decided by the flat engine when present.",
+     declined=["third-party TooDeeIterator implementations honouring their contract"])
+prop("C11", [sel("shape", rules=["R-UNWIND", "R-HIDE"]), sel("zero", fn=r"^(TooDee::(insert|remove|clear|swap_dim)|DrainCol|DropGuard)"), sel("sortshape", desc=r"s5")],
+     "Panic safety is an exit-point property: (R-UNWIND) at every may-unwind terminator (caller code recognised structurally: trait methods on type parameters, closure parameters, drops of types mentioning a type parameter; allocation failure in reserve; assertion failures) of every shape writer, with a shape write still pending, the triple (len, rows, cols) - followed through cleanup blocks and restorer drops - is untouched, all-zero or in product form; (R-HIDE) bitwise duplicates only exist beyond the lowered length and no unwind path restores it; (R-SORTSHAPE s5) comparators/key functions run only inside the side sort, which dominates all array writes.",
+     declined=["'every reachable cell holds a live element' beyond the three consistent forms"])
+prop("C12", [sel("shape", rules=["R-LEAK", "R-LEAK-DRAIN"]), sel("zero", fn=r"^TooDee::remove"), sel("encaps", fn=r"^(DrainCol|<api>)")],
+     "Leak safety: (R-LEAK) a function returning a crate type whose destructor writes the shape returns with a consistent triple as if the destructor never ran; (R-LEAK-DRAIN) a returned std Drain over the buffer is a tail drain, so that Vec's leaked length equals the already-updated dimensions' product; (R-ZERO) the dimensions written eagerly obey the zero rule.  Iterators/views perform no shape write and have no shape-writing drop glue (they are not shape writers in the enumeration).",
+     declined=["range.start == new_rows*new_cols for the tail drain (arithmetic, DESIGN 2.4)"])
+prop("C13", [sel("guard", fn=SWAPS), sel("units", fn=SWAPS), sel("dup", fn=r"(swap|fill|row_pair)")],
+     "Swap/fill primitives, structural clauses: (R-GUARD) swap, swap_rows, swap_cols, row_pair_mut on the owned array, the mutable view and the provided defaults compare each index strictly with the right dimension (directly, via the ordered-swap idiom, or via nth(..).unwrap()); (R-UNITS) no row/column mix-up; (R-DUP) only swap primitives move elements.  L-SWAPROWS / L-ROWITEM / L-NTH address forms by the layout engine when present.")
+prop("C14", [sel("guard", fn=r"copy_within"), sel("units", fn=r"(copy_|clone_from)"), sel("dup", fn=r"(copy_|clone_from|CopyOps)")],
+     "clauses only: guard/unit clauses of C14 - (R-GUARD) the six coordinates of copy_within are bounded against the dimension of their unit (directly or through the ordered source rectangle); (R-ARITH) no `+` on a caller coordinate before its guard; (R-UNITS) row offsets index rows, column offsets slice rows; (R-DUP) bitwise copies only under T: Copy via slice methods.",
+     declined=["overlap direction of copy_within and row-major equality of the result (iteration order vs values)"])
+prop("C15", [sel("guard", fn=r"translate"), sel("units", fn=r"(translate|flip)"), sel("dup", fn=r"(Translate|translate|flip)")],
+     "clauses only: guard and permutation clauses of C15 - mid <= (num_cols, num_rows) with the right units; translate.rs moves elements only with swap_with_slice / rotate_left / reverse on rows obtained from the trait (no element lost or duplicated).",
+     declined=["the position formula new[(c,r)] == old[((c+mc)%C,(r+mr)%R)] and index validity inside the cycle-leader loop (number theory, DESIGN 2.2)"])
+prop("C16", [sel("deleg", fn=r"sort_.*row"), sel("sortshape", fn=r"sort_.*row"), sel("guard", fn=r"sort_.*row"), sel("units", fn=r"sort_.*row"), sel("dup", fn=r"sort_.*row")],
+     "clauses only: sort-by-row family - (R-DELEG) each wrapper reaches the core of its own axis and stability with its index forwarded; (R-SORTSHAPE) s1 side sort of matching stability, s2 comparator/key argument order, s4 the swap trace is applied to every row, s5 user code only before the first write; (R-GUARD) row < num_rows; (R-DUP) only ptr::swap moves elements.",
+     declined=["build_swap_trace turning the permutation into transpositions; sortedness/stability as observed (std's contract given s1-s2)"])
+prop("C17", [sel("deleg", fn=r"sort_.*col"), sel("sortshape", fn=r"sort_.*col"), sel("guard", fn=r"sort_.*col"), sel("units", fn=r"sort_.*col"), sel("dup", fn=r"sort_.*col")],
+     "clauses only: sort-by-column family - as C16 with columns: wrappers reach the *_col cores (R-DELEG, R-UNITS u4), the trace is applied with swap_rows, col < num_cols.",
+     declined=["as C16"])
+prop("C18", [sel("serde", desc=r"^(t1|t2)|t1 |t2 ")],
+     "Serialisation, structural clauses: (t1) writer and reader tables agree - struct field names (derived Serialize), the literals of both view serialisers paired with the getter of the same name and cells(), the reader's key literals, missing_field literals and FIELDS are the same set; each key's value is stored in the slot of the same name and handed to the constructor in parameter order; (t2) map keys are requested as an owned-capable type, so every transport (str, bytes, reader, value tree, escaped keys) can supply them.",
+     declined=["equality of round-tripped cells (element Serialize/Deserialize are caller code)"])
+prop("C19", [sel("serde"), sel("zero", fn=r"visit_map|Deserialize")],
+     "Deserialisation, structural clauses: (t4) the reader's own code has no panicking callee or bounds assertion, and each panic condition of the asserting constructor it calls - K_OVF, K_LEN (classified from the constructor's MIR), K_ZERO (R-ZERO at the call) - is discharged by a dominating guard whose failing edge returns Err; (t1) missing/unknown fields are errors; the constructor receives the parsed values in order.",
+     declined=["panics inside serde / serde_json / the element type's Deserialize"])
+prop("C20", [sel("zero", fn=CTORS), sel("deleg", fn=r"from_box"), sel("units", fn=CTORS)],
+     "Constructors, structural clauses: (R-ZERO) new/init/from_vec/TooDeeView::new/TooDeeViewMut::new and every other construction site only build arrays whose dimensions are both zero or both non-zero; (R-UNITS u5) fields are initialised from parameters of their own unit (no exchanged dimensions, also in From<view>); (R-DELEG) from_box forwards to from_vec in order.",
+     declined=["row-major equality of contents as values; Hash/Eq agreement is the derive's contract"])
